@@ -45,7 +45,7 @@ func (ref Reference) CompletionAtPos(ctx context.Context, pos hcl.Pos) []lang.Ca
 		}
 		candidates := make([]lang.Candidate, 0)
 		ref.pathCtx.ReferenceTargets.MatchWalk(ctx, ref.cons, "", outerBodyRng, editRng, func(target reference.Target) error {
-			address := target.Address(ctx, editRng.Start).String()
+			address := target.AddressInFile(ctx, editRng.Filename, editRng.Start).String()
 
 			candidates = append(candidates, lang.Candidate{
 				Label:       address,
@@ -97,7 +97,7 @@ func (ref Reference) CompletionAtPos(ctx context.Context, pos hcl.Pos) []lang.Ca
 
 	candidates := make([]lang.Candidate, 0)
 	ref.pathCtx.ReferenceTargets.MatchWalk(ctx, ref.cons, prefix, outerBodyRng, editRng, func(target reference.Target) error {
-		address := target.Address(ctx, editRng.Start).String()
+		address := target.AddressInFile(ctx, editRng.Filename, editRng.Start).String()
 
 		candidates = append(candidates, lang.Candidate{
 			Label:       address,
